@@ -609,9 +609,12 @@ def csv_text_input(case, names, csv_args):
     for x in blob_numbers(case):
         nums[tuple(rat(x))] = repr(float(x))
     neg_zero = any(float(x) == 0.0 and bool(np.signbit(float(x))) for x in blob_numbers(case))
-    return (1555, [name_tbl, [[list(k), c15_csvtext.enc(v)] for k, v in nums.items()],
+    # tag 1556 (audit 4, A4): as 1555 WITHOUT the (sticky, categ) lists - the model derives them from the strings by the
+    # substring tests of blob_to_csv / blob_to_df (CsvText.sticky_of / categ_of); csv_args[5] is what the harness computes
+    # for the structured model 1504
+    return (1556, [name_tbl, [[list(k), c15_csvtext.enc(v)] for k, v in nums.items()],
                    [c15_csvtext.enc(cell_type_mapper.__repository__),
-                    c15_csvtext.enc(cell_type_mapper.__version__)]] + csv_args), neg_zero
+                    c15_csvtext.enc(cell_type_mapper.__version__)]] + csv_args[:5] + csv_args[6:]), neg_zero
 
 
 def csv_model_args(case, names):
@@ -763,6 +766,9 @@ def judge(ctx, cases, observed, verbose=False, stream='blob'):
                     else:
                         ctx.dist('csv file text tie', 'byte for byte equal'
                                  + (', table well_shaped for the comment reader' if m_txt[1][2] and m_txt[1][1] else ''))
+                        # the hypotheses of c15_csv_text_of_blob_roundtrip (audit 4, A4) evaluated by the model on this real case
+                        ctx.dist('csv file text tie', 'hypotheses on the strings: names_defined '
+                                 f'{bool(m_txt[1][3])}, readable level strings distinct {bool(m_txt[1][4])}')
                 if [parsed['comments'], parsed['cols'], parsed['rows']] != m_csv[1]:
                     hm_ = case['tree'].get('hierarchy_mapper', {})
                     f15_names = any(word in hm_.get(level, level) for level in hierarchy
@@ -1085,7 +1091,7 @@ def run(ctx):
         'the blob holds no NaN (the model\'s numbers are exact fractions): a probability is a ratio of vote counts; '
         'avg_correlation is NaN only if the expression data hold a NaN (constant rows give 0 by the convention of '
         'distance_utils); a NaN confidence is written as an EMPTY field (observed in a small stream, not judged)',
-        'the byte-for-byte tie of the file text (tag 1555) leaves out blobs holding a -0.0 (printed -0.0000 by the '
+        'the byte-for-byte tie of the file text (tag 1556: sticky / categorical levels derived by the model from the strings) leaves out blobs holding a -0.0 (printed -0.0000 by the '
         'real code; the model\'s fraction 0/1 has no sign: covered on doubles by tag 1552, fmt4_text true 0 0)',
         'pandas CSV quoting and %.4f, gzip, h5py and json float printing are trusted (modelled as identity / exact '
         'round-half-even of the binary value)',
